@@ -45,9 +45,13 @@ Definition C03_statement : Prop :=
         source_key r2 (rn_st before) t = source_key r1 st1 t ->
         ~ In (t_label t) (rn_log (build_all false r2 st1)))
   (* (d) the source key only sees path-hash streams: a dependency rebuilt to outputs with the same streams
-     (in particular byte-identical outputs) leaves the key, hence by (c) the dependent, alone *)
+     (in particular byte-identical outputs) leaves the key, hence by (c) the dependent, alone.  Of the TOOLS of a
+     target (tools = [...]) the key sees the streams of their outputs and nothing else - not the tool's own inputs,
+     not even the paths of its outputs: a tool rebuilt to byte-identical outputs does not trigger its users *)
   /\ (forall r1 r2 st1 st2 t, iter_sources r2 t = iter_sources r1 t ->
         (forall p, In p (iter_sources r1 t) -> option_map stream (read r2 st2 p) = option_map stream (read r1 st1 p)) ->
+        map (fun p => option_map stream (read r2 st2 p)) (tool_paths r2 t)
+        = map (fun p => option_map stream (read r1 st1 p)) (tool_paths r1 t) ->
         source_key r2 st2 t = source_key r1 st1 t).
 
 Theorem C03_full : C03_statement.
@@ -105,4 +109,75 @@ Example C03_stale_flow_witness :
   /\ run_ok (build_all false st_A st_2) = false
   /\ run_ok (build_all false st_A (rn_st (build_all false st_A st_2))) = true
   /\ run_ok (build_all false st_A empty_store) = true.
+Proof. vm_compute. repeat split. Qed.
+
+(* Non-vacuity with tools: u = cat $TOOLS $SRCS with tools = [g], g = a constant that ignores its source g.txt.  Editing
+   g.txt re-runs g, whose output is byte-identical: u is cut off.  Changing g's command (another constant) re-runs
+   both.  The second build of an unchanged tree runs nothing. *)
+Definition nv_g (c key : str) : target := mkT (s "//p:g") (s "p") (Genrule (Const c)) [SFile (s "g.txt")] [s "g.out"] key.
+Definition nv_u : target := mkT (s "//p:u") (s "p") (Genrule UseTool) [SFile (s "u.txt"); STool (s "//p:g")] [s "u.out"] (s "ku").
+Definition nv_t1 : repo := mkR [(s "p/g.txt", s "1"); (s "p/u.txt", s "2")] [nv_g (s "T") (s "kg"); nv_u].
+Definition nv_t2 : repo := mkR [(s "p/g.txt", s "changed"); (s "p/u.txt", s "2")] [nv_g (s "T") (s "kg"); nv_u].
+Definition nv_t3 : repo := mkR [(s "p/g.txt", s "changed"); (s "p/u.txt", s "2")] [nv_g (s "T2") (s "kg2"); nv_u].
+Example C03_nonvacuous_tools :
+  wf_repo nv_t1 = true /\ wf_repo nv_t2 = true /\ wf_repo nv_t3 = true
+  /\ rn_log (build_all false nv_t1 empty_store) = [s "//p:u"; s "//p:g"]
+  /\ outs_of (rn_st (build_all false nv_t1 empty_store)) nv_u = [(s "u.out", Some (File false (s "T" ++ nl ++ s "2")))]
+  /\ rn_log (build_all false nv_t1 (rn_st (build_all false nv_t1 empty_store))) = []
+  /\ rn_log (build_all false nv_t2 (rn_st (build_all false nv_t1 empty_store))) = [s "//p:g"]
+  /\ rn_log (build_all false nv_t3 (rn_st (build_all false nv_t1 empty_store))) = [s "//p:u"; s "//p:g"].
+Proof. vm_compute. repeat split. Qed.
+
+(* Cut-off through a tool, (c) and (d) combined: r1 built, the tree edited to r2 (e.g. a source of the tool g), r2
+   built.  If, when the turn of the user t comes, its own sources have the streams they had and the outputs of its
+   tools have the streams they had (the tool was rebuilt to byte-identical outputs - or to other paths with the same
+   bytes), the command of t does not run. *)
+Theorem C03_tool_cutoff :
+  forall r1 r2 st0 t pre post,
+    wf_repo r1 = true -> wf_repo r2 = true -> run_ok (build_all false r1 st0) = true ->
+    stale_in false r1 (r_targets r1) (mkRun st0 [] []) = false -> dyn_ok r1 st0 = true ->
+    In t (r_targets r1) -> r_targets r2 = pre ++ t :: post -> is_filegroup t = false -> could_modify t = false ->
+    let st1 := rn_st (build_all false r1 st0) in
+    let before := fold_left (build_one false r2) pre (mkRun st1 [] []) in
+    stale_in false r2 pre (mkRun st1 [] []) = false ->
+    iter_sources r2 t = iter_sources r1 t ->
+    (forall p, In p (iter_sources r1 t) -> option_map stream (read r2 (rn_st before) p) = option_map stream (read r1 st1 p)) ->
+    map (fun p => option_map stream (read r2 (rn_st before) p)) (tool_paths r2 t)
+    = map (fun p => option_map stream (read r1 st1 p)) (tool_paths r1 t) ->
+    ~ In (t_label t) (rn_log (build_all false r2 st1)).
+Proof.
+  intros r1 r2 st0 t pre post H1 H2 H3 H4 H5 H6 H7 H8 H9 st1 before H10 Hi Hs Ht.
+  apply (cutoff_two_builds r1 r2 st0 t pre post); try assumption.
+  apply source_key_streams; assumption.
+Qed.
+Print Assumptions C03_tool_cutoff.
+
+(* Filegroups, sources that are files or whole DIRECTORIES: where the source exists, the build of the filegroup leaves
+   EXACTLY the source tree (the old output is removed, never merged with the new one) or keeps the untouched old output
+   whose path hash equals that of the source - for every repository, store and filegroup with distinct sources. *)
+Theorem C03_filegroup_replaces :
+  forall r t rn f n, NoDup (outputs t) -> In f (outputs t) -> fg_src r (join (t_pkg t) f) = Some n ->
+    let rel := join (t_pkg t) f in
+    let rn' := build_filegroup r t rn in
+    s_outs (rn_st rn') rel = Some (mkE n None)
+    \/ (s_outs (rn_st rn') rel = s_outs (rn_st rn) rel
+        /\ exists e, s_outs (rn_st rn) rel = Some e /\ stream (e_node e) = stream n).
+Proof. intros r t rn f n. rewrite build_filegroup_steps. apply filegroup_output_exact_or_kept. Qed.
+Print Assumptions C03_filegroup_replaces.
+
+(* Non-vacuity with a filegroup of a directory: f links the source directory p/dd (x.txt, y.txt, sub/z.txt), l lists it.
+   y.txt is deleted and x.txt replaced by w.txt with other content: the filegroup output is exactly the new tree (no
+   y.txt, no x.txt left behind), l runs again, a further build runs nothing. *)
+Definition nv_fd : target := mkT (s "//p:f") (s "p") Filegroup [SFile (s "dd")] [] (s "kf").
+Definition nv_ld : target := mkT (s "//p:l") (s "p") (Genrule ListNames) [SLabel (s "//p:f")] [s "l.names"] (s "kl").
+Definition nv_d1 : repo := mkR [(s "p/dd/x.txt", s "X"); (s "p/dd/y.txt", s "Y"); (s "p/dd/sub/z.txt", s "Z")] [nv_fd; nv_ld].
+Definition nv_d2 : repo := mkR [(s "p/dd/w.txt", s "W"); (s "p/dd/sub/z.txt", s "Z")] [nv_fd; nv_ld].
+Example C03_nonvacuous_filegroup_dir :
+  wf_repo nv_d1 = true /\ wf_repo nv_d2 = true
+  /\ outs_of (rn_st (build_all false nv_d1 empty_store)) nv_fd
+     = [(s "dd", Some (Dir [(s "sub", Dir [(s "z.txt", File false (s "Z"))]); (s "x.txt", File false (s "X")); (s "y.txt", File false (s "Y"))]))]
+  /\ outs_of (rn_st (build_all false nv_d2 (rn_st (build_all false nv_d1 empty_store)))) nv_fd
+     = [(s "dd", Some (Dir [(s "sub", Dir [(s "z.txt", File false (s "Z"))]); (s "w.txt", File false (s "W"))]))]
+  /\ rn_log (build_all false nv_d2 (rn_st (build_all false nv_d1 empty_store))) = [s "//p:l"]
+  /\ rn_log (build_all false nv_d2 (rn_st (build_all false nv_d2 (rn_st (build_all false nv_d1 empty_store))))) = [].
 Proof. vm_compute. repeat split. Qed.
